@@ -1,19 +1,23 @@
 #!/venv/bin/python
-'''tools/mkmut.py <name> <file-in-repo> <old> <new>  -> /verif/mutants/<name>.diff
+'''tools/mkmut.py <name> <file-in-repo> <old> <new> [<old2> <new2> ...]  -> /verif/mutants/<name>.diff
 Works on a private copy of /repo's working tree; /repo itself is never touched.'''
 import os
 import shutil
 import subprocess
 import sys
 import tempfile
-name, path, old, new = sys.argv[1:5]
+name, path = sys.argv[1:3]
+pairs = sys.argv[3:]
+assert len(pairs) % 2 == 0 and pairs
 tree = tempfile.mkdtemp(prefix='mkmut.', dir='/tmp')
 try:
     subprocess.run(['cp', '-a', '/repo/.', tree + '/'], check=True)
     full = os.path.join(tree, path)
     s = open(full).read()
-    assert s.count(old) >= 1, 'pattern not found in ' + path
-    open(full, 'w').write(s.replace(old, new, 1))
+    for old, new in zip(pairs[0::2], pairs[1::2]):
+        assert s.count(old) >= 1, 'pattern not found in ' + path + ': ' + old[:40]
+        s = s.replace(old, new, 1)
+    open(full, 'w').write(s)
     d = subprocess.run(['git', '-C', tree, 'diff'], capture_output=True, text=True).stdout
     open('/verif/mutants/%s.diff' % name, 'w').write(d)
     print(name, len(d.splitlines()), 'lines')
